@@ -58,7 +58,7 @@ pub fn apply_mods(ldap: &mut Ldap, m: &Mods) {
         ldap.with_controls(raw_controls(cs));
     }
     if let Some(t) = m.timeout_ms {
-        ldap.with_timeout(Duration::from_millis(t));
+        ldap.with_timeout(if t == u64::MAX { Duration::MAX } else { Duration::from_millis(t) });
     }
     if let Some(o) = &m.opts {
         let d = match o.deref {
@@ -357,6 +357,21 @@ pub async fn run_client(client: usize, script: ClientScript, ldap: Ldap, opts: C
                     Some(s) => Ret::State(state_name(s.state())),
                 };
                 world::ev(EvKind::Return { client, step: ix, token: tok, ret, last_id: 0 });
+            }
+            Step::StreamAbandon { slot } => {
+                let tok = format!("abandon@{slot}");
+                match slots.get_mut(*slot).and_then(|s| s.as_mut()) {
+                    None => world::ev(EvKind::Return { client, step: ix, token: tok, ret: Ret::Skipped, last_id: 0 }),
+                    Some(s) => {
+                        let id = s.ldap_handle().last_id();
+                        world::ev(EvKind::Invoke { client, step: ix, token: tok.clone(), what: "\"abandon\"".into() });
+                        let ret = match s.ldap_handle().abandon(id).await {
+                            Ok(()) => Ret::Unit,
+                            Err(e) => Ret::Err(err_c(&e)),
+                        };
+                        world::ev(EvKind::Return { client, step: ix, token: tok, ret, last_id: id });
+                    }
+                }
             }
             Step::DropStream { slot } => {
                 if let Some(s) = slots.get_mut(*slot) {
